@@ -1,8 +1,10 @@
 SPECIFICATION Spec
 CONSTANT Variant = "spec"
-CONSTANT MaxLen = 1
-CONSTANT PairSlice = 1
+CONSTANT MaxLen = 2
+CONSTANT PairCoreSlice = 1
+CONSTANT PairNewSlice = 40
+CONSTANT Wide = FALSE
 CONSTANT TripleSlice = 0
-CONSTANT RawMax = 2
+CONSTANT RawMax = 3
 CONSTANT DoEmit = TRUE
 INVARIANT Emit
